@@ -74,6 +74,9 @@ func genConcCase(t *rapid.T) concCase {
 	if rapid.IntRange(0, 2).Draw(t, "withsearch") == 0 {
 		n := rapid.IntRange(3, 6).Draw(t, "sn")
 		m := rapid.IntRange(2, 4).Draw(t, "sm")
+		if rare(t, "search8", 8) {
+			n, m = 8, 4 // 12346 graphs: subset tables of 35, 56 and 70 entries in every shard
+		}
 		for a := 0; a < m; a++ {
 			c.Tasks = append(c.Tasks, cTask{Kind: "search", A: a, B: m, G: GSpec{N: n}})
 		}
@@ -681,7 +684,7 @@ func checkConcCase(c concCase, rec *Rec) error {
 
 func init() {
 	s := RegisterRapid("C19_concurrent_workloads",
-		"rapid (run from the -race binary): a workload of 3..~25 tasks drawn from 25 kinds - all m shards of search.All(n<=6), CanonicalIsomorphFull on own graphs (incl. 24..44-vertex graphs with large cells) and on ONE shared read-only graph held as dense/sparse/three views, CanonicalIsomorphAllocated with own storage, eight itertools iterators, own dawg Builders, Lookup and Search (own searchers) on ONE shared Dawg (half of the time with 24 links at the root and at a second-level node), observers / clique / colouring / distance / block / counting / planarity / codec functions on the shared graph, AllMaximalCliques with own channels, comb and sortints functions on shared read-only slices, RandomGraph/RandomTree, the named generators, tsp.LIB to own buffers, GobEncode of the shared Dawg + GobDecode into an own one, an own pruned search that is saved and resumed, induced-subgraph and complement views created over the shared graphs, deep copies (Copy, InducedSubgraph on prefixes) derived from the shared graphs and then edited, own graphs edited immediately after each library call on them returns, own graphs built and grown from argument slices that all goroutines share, NumberOfCycles / blocks / observers on ONE shared 36-vertex graph; half of the tasks are duplicated so that two goroutines run identical code on the shared values. Each task's result is computed alone (before the concurrent rounds, or - in half of the cases - after the first one, so that lazily filled caches are still cold when the goroutines start), and all tasks run on 2..16 goroutines behind a start barrier with GOMAXPROCS in {1,2,4,16}, 1..3 rounds. Violation: any race-detector report (GORACE=halt_on_error), any panic, any result that differs from the sequential one, or shards that no longer partition the classes. Schedules are sampled, not enumerated. Non-trivial: >= 2 tasks on >= 2 goroutines.",
+		"rapid (run from the -race binary): a workload of 3..~25 tasks drawn from 25 kinds - all m shards of search.All(n<=6; one workload in twenty-four: the four shards of All(8)), CanonicalIsomorphFull on own graphs (incl. 24..44-vertex graphs with large cells) and on ONE shared read-only graph held as dense/sparse/three views, CanonicalIsomorphAllocated with own storage, eight itertools iterators, own dawg Builders, Lookup and Search (own searchers) on ONE shared Dawg (half of the time with 24 links at the root and at a second-level node), observers / clique / colouring / distance / block / counting / planarity / codec functions on the shared graph, AllMaximalCliques with own channels, comb and sortints functions on shared read-only slices, RandomGraph/RandomTree, the named generators, tsp.LIB to own buffers, GobEncode of the shared Dawg + GobDecode into an own one, an own pruned search that is saved and resumed, induced-subgraph and complement views created over the shared graphs, deep copies (Copy, InducedSubgraph on prefixes) derived from the shared graphs and then edited, own graphs edited immediately after each library call on them returns, own graphs built and grown from argument slices that all goroutines share, NumberOfCycles / blocks / observers on ONE shared 36-vertex graph; half of the tasks are duplicated so that two goroutines run identical code on the shared values. Each task's result is computed alone (before the concurrent rounds, or - in half of the cases - after the first one, so that lazily filled caches are still cold when the goroutines start), and all tasks run on 2..16 goroutines behind a start barrier with GOMAXPROCS in {1,2,4,16}, 1..3 rounds. Violation: any race-detector report (GORACE=halt_on_error), any panic, any result that differs from the sequential one, or shards that no longer partition the classes. Schedules are sampled, not enumerated. Non-trivial: >= 2 tasks on >= 2 goroutines.",
 		Budget{Checks: 150, Shards: 3}, Budget{Checks: 1500, Shards: 16}, genConcCase, checkConcCase)
 	s.Race = true
 }
